@@ -217,10 +217,14 @@ def stereo_mol_graph_to_rdmol(
 
             if a_stereo.parity is None:
                 rd_stereo = Chem.rdchem.ChiralType.CHI_TETRAHEDRAL
-            elif rd_nbrs in {tuple(perm[1:5]) for perm in a_stereo._perm_atoms()}:
-                rd_stereo = rd_tetrahedral[a_stereo.parity]
             else:
-                rd_stereo = rd_tetrahedral[a_stereo.parity * -1]
+                # RDKit reads the tag relative to its own neighbor order; a
+                # missing fourth neighbor is the lone pair placeholder
+                rd_order = (atom, *rd_nbrs, *[None] * (4 - len(rd_nbrs)))
+                if Tetrahedral(rd_order, 1) == a_stereo:
+                    rd_stereo = rd_tetrahedral[1]
+                else:
+                    rd_stereo = rd_tetrahedral[-1]
             rd_atom.SetChiralTag(rd_stereo)
 
 
